@@ -1024,7 +1024,7 @@ class FDE:
             if attr in self.stubs:
                 return Bound(base, None, attr, False)       # method of an external base class, stubbed by name
             raise Unsupported('field %s of %r (%s) not modelled' % (attr, base, base.cls))
-        if isinstance(base, ObjDict) and attr in ('update', 'copy', 'get', 'pop'):
+        if isinstance(base, ObjDict) and attr in ('update', 'copy', 'get', 'pop', 'setdefault', 'items', 'keys', 'values'):
             return ('objdictmethod', base, attr)
         if isinstance(base, dict) and attr in ('get', 'items', 'keys', 'values', 'pop', 'update', 'setdefault'):
             return ('dictmethod', base, attr)
@@ -1103,6 +1103,17 @@ class FDE:
                         self.class_objs[key] = Opaque('sentinel %s' % e.id)       # a module-level `NAME = object()`: one unique object, compared by identity
                     return self.class_objs[key]
                 if isinstance(g, (ast.Dict, ast.List, ast.Tuple, ast.Constant, ast.Set)):
+                    key = ('global', fi.module.relpath, e.id)
+                    if key not in self.class_objs:
+                        self.class_objs[key] = self._ev(g, {}, fi)
+                    return self.class_objs[key]
+                if fi.module.constant_binding(e.id) is g and isinstance(g, (ast.BinOp, ast.UnaryOp, ast.Call, ast.Subscript, ast.Compare, ast.BoolOp, ast.IfExp, ast.JoinedStr)) \
+                        and all(isinstance(x, (ast.BinOp, ast.UnaryOp, ast.Compare, ast.BoolOp, ast.IfExp, ast.Subscript, ast.Slice, ast.Constant, ast.Tuple, ast.List, ast.Name, ast.operator, ast.unaryop,
+                                               ast.cmpop, ast.boolop, ast.expr_context, ast.JoinedStr, ast.FormattedValue))
+                                or (isinstance(x, ast.Call) and isinstance(x.func, ast.Name) and x.func.id in ('len', 'min', 'max', 'abs', 'sum', 'int', 'str', 'tuple', 'frozenset', 'sorted') and not x.keywords) for x in ast.walk(g)) \
+                        and all(x.id != e.id and (x.id in ('len', 'min', 'max', 'abs', 'sum', 'int', 'str', 'tuple', 'frozenset', 'sorted', 'True', 'False', 'None') or fi.module.constant_binding(x.id) is not None)
+                                for x in ast.walk(g) if isinstance(x, ast.Name)):
+                    # NAME = <arithmetic over literals, pure builtins and other module constants> (_MIN_LEN = len(_PREFIX) + 2): evaluated once, in module scope
                     key = ('global', fi.module.relpath, e.id)
                     if key not in self.class_objs:
                         self.class_objs[key] = self._ev(g, {}, fi)
@@ -1406,10 +1417,21 @@ class FDE:
             return isinstance(x, tuple) and len(x) == 2 and x[0] == 'class'
         if isinstance(op, (ast.Is, ast.IsNot)) and isclass(a) and isclass(b):
             return (a == b) if isinstance(op, ast.Is) else (a != b)
+
+        def isext(x):
+            return isinstance(x, tuple) and len(x) == 2 and x[0] == 'ext'
+        if isinstance(op, (ast.Is, ast.IsNot)) and isext(a) and isext(b):
+            same = a[1] is b[1] or (isinstance(a[1], tuple) and a[1] == b[1])      # stand-ins for external singletons are named tuples
+            return same if isinstance(op, ast.Is) else not same
         if isinstance(op, ast.Is):
             return a is b
         if isinstance(op, ast.IsNot):
             return a is not b
+        if isinstance(op, (ast.Eq, ast.NotEq)) and any(isinstance(x, Obj) and '_fde_payload' in x.f for x in (a, b)):
+            # scalar nodes are instances of the built-in type they wrap: they compare by the value they hold (1 == True == 1.0)
+            pa, pb = [x.f['_fde_payload'] if isinstance(x, Obj) and '_fde_payload' in x.f else x for x in (a, b)]
+            if not any(isinstance(x, (Obj, Opaque)) for x in (pa, pb)):
+                return (pa == pb) if isinstance(op, ast.Eq) else (pa != pb)
         if isinstance(op, ast.Eq):
             return a == b
         if isinstance(op, ast.NotEq):
@@ -1792,9 +1814,17 @@ class FDE:
                         return isinstance(o, tuple(_B[x[1]] for x in cands))
                     if all(x[1] in self.repo.classes for x in cands):
                         return False      # a plain Python value is not an instance of a node class
+                if (o is None or isinstance(o, (int, str, float, bytes, list, dict, tuple, set))) and not (isinstance(o, tuple) and o and o[0] in ('class', 'ext', 'kind')) \
+                        and cands and all(isinstance(x, tuple) and len(x) == 2 and ((x[0] == 'class' and x[1] in _B) or (x[0] == 'ext' and isinstance(x[1], type))) for x in cands):
+                    return isinstance(o, tuple(_B[x[1]] if x[0] == 'class' else x[1] for x in cands))      # built-in and stdlib types mixed: (str, os.PathLike)
                 raise Unsupported('isinstance(%r, %r)' % (o, c))
             if n == 'type' and len(args) == 1 and isinstance(args[0], Obj):
                 return ('class', args[0].cls)
+            if n == 'type' and len(args) == 1 and isinstance(args[0], PathVal):
+                return ('class', 'NodePath')
+            if n == 'type' and len(args) == 1 and (args[0] is None or type(args[0]) in (int, str, float, bool, bytes, list, dict, set)
+                                                    or (type(args[0]) is tuple and not (args[0] and isinstance(args[0][0], str) and args[0][0] in ('class', 'ext', 'kind', 'closure', 'unbound', 'partial')))):
+                return ('class', type(args[0]).__name__) if args[0] is not None else ('ext', type(None))       # exact type of a plain Python value
             if n == 'type' and len(args) == 1 and isinstance(args[0], ExcValue) and args[0].attrs is not None:
                 import builtins as _b
                 c_ = getattr(_b, args[0][1], None)
@@ -1840,7 +1870,7 @@ class FDE:
             if n == 'dict' and len(args) == 1 and not kwargs and n not in env and isinstance(args[0], ObjDict):
                 o_ = args[0].obj
                 return {k: v for k, v in o_.f.items() if k not in o_.missing and not k.startswith('_fde_')}      # dict(obj.__dict__): a plain copy of the state
-            if n == 'dict' and len(args) == 1 and not kwargs and n not in env and isinstance(args[0], Obj):
+            if n == 'dict' and len(args) == 1 and not kwargs and n not in env and isinstance(args[0], (Obj, Opaque)) and not isinstance(args[0], TypedOpaque):
                 return Opaque('dict(%s)' % args[0].name)
             if n in ('str', 'repr') and len(args) == 1 and n not in env and isinstance(args[0], (Obj, Opaque)):
                 return Opaque('%s(%s)' % (n, getattr(args[0], 'name', '?')))       # text of an abstract object: some string
@@ -1941,6 +1971,11 @@ class FDE:
             if isinstance(target, tuple) and target and target[0] == 'objdictmethod':
                 if target[2] == 'update' and args and isinstance(args[0], ObjDict):
                     self.effects.append(('call', '__dict__.update', target[1].obj, (args[0].obj,), ()))
+                    src_, dst_ = args[0].obj, target[1].obj
+                    for k_, v_ in list(src_.f.items()):
+                        if not k_.startswith('_fde_') and k_ not in src_.missing:
+                            dst_.f[k_] = v_
+                            dst_.missing.discard(k_)
                     return None
                 if target[2] in ('get', 'pop') and 1 <= len(args) <= 2 and not kwargs and isinstance(args[0], str):
                     o_ = target[1].obj
@@ -1958,6 +1993,20 @@ class FDE:
                 if target[2] == 'copy' and not args and not kwargs:
                     o_ = target[1].obj
                     return {k: v for k, v in o_.f.items() if k not in o_.missing and not k.startswith('_fde_')}     # a plain dict: the state of the object
+                if target[2] in ('items', 'keys', 'values') and not args and not kwargs:
+                    o_ = target[1].obj
+                    st_ = {k: v for k, v in o_.f.items() if k not in o_.missing and not k.startswith('_fde_')}
+                    return list(getattr(st_, target[2])())      # a snapshot of the state of the object
+                if target[2] == 'setdefault' and len(args) == 2 and not kwargs and isinstance(args[0], str):
+                    o_ = target[1].obj
+                    if args[0] in o_.f and args[0] not in o_.missing:
+                        return o_.f[args[0]]
+                    if args[0] not in o_.missing and self.repo.class_attr(o_.cls, args[0])[1]:
+                        raise Unsupported('__dict__.setdefault(%r) of %s' % (args[0], o_.name))
+                    o_.f[args[0]] = args[1]
+                    o_.missing.discard(args[0])
+                    self.effects.append(('setattr', o_, args[0], args[1]))
+                    return args[1]
                 if target[2] == 'update' and len(args) == 1 and isinstance(args[0], dict) and not kwargs and all(isinstance(k, str) for k in args[0]):
                     o_ = target[1].obj
                     for k, v in args[0].items():
